@@ -93,7 +93,11 @@ func Load(c Config) (*Prog, error) {
 		allNotes = append(allNotes, notes...)
 	}
 	p.Cfg = c
-	p.Normalised = allNotes
+	inl, err := inlineNewHelpers(p)
+	if err != nil {
+		return nil, fmt.Errorf("helper inlining: %v", err)
+	}
+	p.Normalised = append(allNotes, inl...)
 	return p, nil
 }
 
